@@ -246,7 +246,7 @@ def conv_inst(name, L, opts="", defs=(), timeout=600, functions=None):
                     functions=functions or "read_file_with_callback, read_file, store, check_delim, setGroupList, econf_getGroups, econf_getKeys, econf_getStringValue, econf_getExtValue, econf_errLocation, econf_freeFile",
                     bounds="layout (K/k key, V/v/W value, q quoted, c comment, S/s section, b blank, d delimiter, h comment char, m/M continuation chars are symbolic over their class; the rest literal): %s ; delim=%r comment=%r ; lines: %s"
                            % (convgen.cstr(L.tpl), L.delim, L.comment, " ".join(L.desc)),
-                    sample_decoder=lambda inp, inst, tpl=L.tpl: {"template": convgen.cstr(tpl), "file": "".join((chr(inp[i]) if i < len(inp) else "?") if c in "KkVWvqcSsbdhmnMx" else c for i, c in enumerate(tpl)).encode("latin1", "replace").decode("latin1").encode("unicode_escape").decode()})
+                    sample_decoder=lambda inp, inst, tpl=L.tpl: {"template": convgen.cstr(tpl), "file": "".join((chr(inp[i]) if i < len(inp) else "?") if c in "KkVWvqcSsbBdhmnMx" else c for i, c in enumerate(tpl)).encode("latin1", "replace").decode("latin1").encode("unicode_escape").decode()})
     inst.functional_only = True
     return inst
 
@@ -275,7 +275,7 @@ def conv_family(tier, seed, meta=False, err=False, kinds=None, per_class=None, d
                 if err and L.err is None: continue
                 layouts.append(("rnd%d" % r, L))
             for tg, L in layouts:
-                if not L.valid() or len(L.tpl) == 0 or len(L.tpl) > 40: continue
+                if not L.valid() or len(L.tpl) == 0 or len(L.tpl) > (26 if tier == "quick" else 34): continue
                 if not err and L.err is not None: continue
                 insts.append(conv_inst("%s-%s-%s-%s" % (tag, dn, cn, tg), L, opts="PYTHON_STYLE=1" if python else "", defs=defs))
     return insts
